@@ -146,7 +146,19 @@ class ContinueCanonicalizationTransformer(converter.Base):
 
   def visit_Try(self, node):
     node.body = self._visit_non_loop_body(node.body)
+    # The else clause only runs if the body ran to its end; a continue statement
+    # in the body skips it.
+    body_continues = self.state[_Block].create_guard_next
     node.orelse = self._visit_non_loop_body(node.orelse)
+    if body_continues and node.orelse:
+      template = """
+        if not var_name:
+          orelse
+      """
+      node.orelse = templates.replace(
+          template,
+          var_name=self.state[_Continue].control_var_name,
+          orelse=node.orelse)
     # In Python 3.8 and later continue is allowed in finally blocks
     node.finalbody = self._visit_non_loop_body(node.finalbody)
     node.handlers = self.visit_block(node.handlers)
